@@ -715,6 +715,9 @@ Definition check_weights (c : cfg) (p : obs) (natural : bool) (args res : list Z
       | Some (pts, [q], _), Some wl =>
           let tol := if c_f32 c then 200%Z else 10000000%Z in
           [(T_interp, (length wl =? Z.to_nat n) && (if natural then nnw_ok p pts tol q wl else bary_ok p pts tol q wl))]
+      | Some (pts, [q], _), None =>
+          (* non-finite weights: only tolerated when the triangulation is not well conditioned (outside the property's domain) *)
+          [(T_interp, negb (forallb (well_conditioned p pts) (seq 1 (nF p - 1))))]
       | _, _ => [(T_parse, false)]
       end
   | _, _ => [(T_parse, false)]
